@@ -906,6 +906,10 @@ def bulk_iteration(props, pulled_by, key_of_item):
         nm = body.name
         E.iter_classes['item'] += 1
         it_req(E, props, 'ONCE', len(pulls) == 1, nm + ':iteration', 'the source must be advanced exactly once per iteration', it)
+        okc, bad = bulk_source_ok(E, body, seg)
+        it_req(E, props, 'FLOW', okc, nm + ':iteration',
+               'the items must be pulled from the source itself, front to back, with nothing in between that could '
+               'drop, skip or reorder items (offending call: %s)' % (bad[1] if bad else None), it)
         hits = it.ev('hit')
         apps = it.ev('append')
         it_req(E, props, 'ONCE', len(hits) + len(apps) == 1, nm + ':iteration',
@@ -1623,6 +1627,14 @@ def precheck_iteration(props):
     return hook
 
 
+def h_unchecked_disjoint(ctx, p):
+    """the unsafe body under its contract (requests pairwise different): it must not move, write or re-count
+    anything; its unchecked accesses are obligations of the safety rules, which count for C13 and C18 here"""
+    ctx.classes['returned'] += 1
+    ctx.req('OUT', not p.reads and not p.writes and not p.lens, ctx.body.name,
+            'must not move, write or re-count any element', p)
+
+
 def h_get_disjoint(ctx, p):
     nm = ctx.body.name
     acc = [i for i, e in enumerate(p.events) if e[0] in ('slice', 'at') and e[1] == p.mid]
@@ -1683,6 +1695,45 @@ def h_delegate(ctx, p):
     ctx.req('ONCE', ok, nm, 'must forward to the same method of the wrapped iterator exactly once and return its result', p)
 
 
+LOSSLESS = ('IntoIterator::into_iter', 'Iterator::copied', 'Iterator::cloned', 'Iterator::by_ref')
+DRIVERS = ('Iterator::next', 'Iterator::for_each', 'Iterator::fold', 'Iterator::try_for_each', 'Iterator::try_fold')
+
+
+def source_chain_ok(tag, src):
+    """`tag` is the source argument itself, or into_iter()/copied()/cloned()/by_ref() of such a value:
+    nothing that could drop, reorder or repeat items stands between the source and the loop"""
+    if tag == src:
+        return True
+    if isinstance(tag, tuple) and len(tag) >= 3 and tag[0] in ('u', 'c') and isinstance(tag[1], str) \
+            and any(tag[1].endswith(x) for x in LOSSLESS) and isinstance(tag[2], tuple) and tag[2]:
+        return source_chain_ok(tag[2][0], src)
+    return False
+
+
+def bulk_source_ok(E, body, events):
+    """every call that advances an iterator of user data is a plain driver (next/for_each/fold...) applied
+    to the source argument itself -> (ok, offending event)"""
+    tags = arg_tags(body)
+    src = tags.get(max(tags)) if tags else None
+    n = 0
+    for e in events:
+        if e[0] != 'user' or '::Iterator::' not in e[1] and not e[1].endswith('IntoIterator::into_iter'):
+            continue
+        if not (isinstance(e[2], tuple) and e[2]):
+            continue
+        recv = e[2][0]
+        if any(e[1].endswith(x) for x in LOSSLESS):
+            continue
+        if any(e[1].endswith(x) for x in DRIVERS):
+            n += 1
+            if not source_chain_ok(recv, src):
+                return False, e
+            continue
+        # any other Iterator method on user data (take, skip, step_by, filter, nth, rev, ...)
+        return False, e
+    return True, None
+
+
 def _pulled_next(e):
     return (e[0] == 'next' and e[-1] == 'Some') or (e[0] == 'user' and e[1].endswith('::Iterator::next')) \
         or (e[0] == 'opaque' and e[1].endswith('::Iterator>::next'))
@@ -1741,6 +1792,17 @@ def iteration_hook_for(E, body):
     return lambda key, st, seg: fn(E, body, key, st, seg)
 
 
+def h_bulk_extend(ctx, p):
+    """Extend: the whole source is consumed, front to back, by a plain driver"""
+    nm = ctx.body.name
+    ctx.classes['extended'] += 1
+    okc, bad = bulk_source_ok(p.E, ctx.body, p.events)
+    ctx.req('FLOW', okc, nm, 'the whole source must be consumed front to back: no adaptor or call that could drop, skip '
+            'or reorder items may stand between the source and the loop (offending call: %s)' % (bad[1] if bad else None), p)
+    drivers = [e for e in p.user if any(e[1].endswith(x) for x in DRIVERS)]
+    ctx.req('ONCE', bool(drivers), nm, 'the source must actually be consumed', p)
+
+
 def h_bulk_result(ctx, p):
     """from_iter / From<[_; N]>: the result is a container created empty inside the call; the source was
     turned into an iterator exactly once"""
@@ -1751,6 +1813,9 @@ def h_bulk_result(ctx, p):
     ctx.req('FLOW', ms is not None and ms.len0 is None, nm, 'the result must be a container built from new() inside the call', p)
     n = len([e for e in p.user if e[1].endswith('IntoIterator::into_iter')])
     ctx.req('ONCE', n <= 1, nm, 'the source must be turned into an iterator at most once (single forward pass)', p)
+    okc, bad = bulk_source_ok(p.E, ctx.body, p.events)
+    ctx.req('FLOW', okc, nm, 'the whole source must be consumed front to back: no adaptor or call that could drop, skip '
+            'or reorder items may stand between the source and the loop (offending call: %s)' % (bad[1] if bad else None), p)
 
 
 # ------------------------------------------------------------------------------ len / is_empty / capacity / constructors
@@ -1959,6 +2024,7 @@ HANDLERS.update({
     (SET, 'IntoIterator', 'into_iter'): ({'C10'}, h_make_owner),
     (MAP, None, 'into_keys'): ({'C10'}, h_make_owner),
     (MAP, None, 'into_values'): ({'C10'}, h_make_owner),
+    (SET, 'Extend', 'extend'): ({'C16', 'C07'}, h_bulk_extend),
     (MAP, 'FromIterator', 'from_iter'): ({'C16'}, h_bulk_result),
     (SET, 'FromIterator', 'from_iter'): ({'C16'}, h_bulk_result),
     (MAP, 'From', 'from'): ({'C16'}, h_bulk_result),
@@ -2011,6 +2077,8 @@ HANDLERS.update({
 })
 
 
+CLASSES[(SET, 'Extend', 'extend')] = {'extended'}
+CLASSES[(MAP, None, 'get_disjoint_unchecked_mut')] = {'returned'}
 for _k in list(HANDLERS):
     if _k[0] in (MAP, SET) and _k[1] in (None, 'Default'):
         if _k[2] in ('len', 'is_empty', 'capacity'):
